@@ -8,7 +8,7 @@
 From Coq Require Import ZArith Reals Lia.
 From Flocq Require Import Core.Core IEEE754.Binary.
 From Ais Require Import Model.Base Model.Enums Model.Fields Model.Messages Model.F32Eval Spec.Layouts
-  Proofs.Bits Proofs.Conversions Proofs.FloatBound Proofs.Encode Proofs.RoundTrip Proofs.Coordinates.
+  Proofs.Bits Proofs.Conversions Proofs.FloatBound Proofs.Encode Proofs.RoundTrip Proofs.Coordinates Proofs.CoordinatesAll.
 Local Open Scope N_scope.
 
 (* two's complement of the field's own width, including the most negative value *)
@@ -116,6 +116,113 @@ Theorem C10_coordinates_through_type1 :
       (Rabs (Binary.B2R 24 128 (feval elat) - IZR lat / 600000) <= bpow radix2 (-22) * Rabs (IZR lat / 600000))%R.
 Proof. exact coordinates_through_type1. Qed.
 Print Assumptions C10_coordinates_through_type1.
+
+(* BEGIN generated coordinate theorems (tools/gen_coordinates.py --properties) *)
+(* the same for every other type that carries the 28/27-bit form: 2, 3, 4, 11, 18, 19, 21 *)
+Theorem C10_coordinates_through_type2 :
+  forall c q vrepeat vmmsi vstatus vturn vspeed vaccuracy vcourse vheading vsecond vmaneuver xspare vraim vsync vcomm (lon lat : Z) post,
+    let fs := fields2 vrepeat vmmsi vstatus vturn vspeed vaccuracy (twos 28 lon) (twos 27 lat) vcourse vheading vsecond vmaneuver xspare vraim vsync vcomm in
+    in_range fs ->
+    (- 2 ^ 27 <= lon < 2 ^ 27)%Z -> (- 2 ^ 26 <= lat < 2 ^ 26)%Z ->
+    lon <> 108600000%Z -> lat <> 54600000%Z -> lon <> 0%Z -> lat <> 0%Z ->
+    exists m elon elat,
+      parse_bits c q (enc fs ++ post) = Ok (PositionReport m) /\
+      pr_longitude m = Some elon /\ pr_latitude m = Some elat /\
+      (Rabs (Binary.B2R 24 128 (feval elon) - IZR lon / 600000) <= bpow radix2 (-22) * Rabs (IZR lon / 600000))%R /\
+      (Rabs (Binary.B2R 24 128 (feval elat) - IZR lat / 600000) <= bpow radix2 (-22) * Rabs (IZR lat / 600000))%R.
+Proof. exact coordinates_through_type2_all. Qed.
+Print Assumptions C10_coordinates_through_type2.
+
+
+Theorem C10_coordinates_through_type3 :
+  forall c q vrepeat vmmsi vstatus vturn vspeed vaccuracy vcourse vheading vsecond vmaneuver xspare vraim vsync vcomm (lon lat : Z) post,
+    let fs := fields3 vrepeat vmmsi vstatus vturn vspeed vaccuracy (twos 28 lon) (twos 27 lat) vcourse vheading vsecond vmaneuver xspare vraim vsync vcomm in
+    in_range fs ->
+    (- 2 ^ 27 <= lon < 2 ^ 27)%Z -> (- 2 ^ 26 <= lat < 2 ^ 26)%Z ->
+    lon <> 108600000%Z -> lat <> 54600000%Z -> lon <> 0%Z -> lat <> 0%Z ->
+    exists m elon elat,
+      parse_bits c q (enc fs ++ post) = Ok (PositionReport m) /\
+      pr_longitude m = Some elon /\ pr_latitude m = Some elat /\
+      (Rabs (Binary.B2R 24 128 (feval elon) - IZR lon / 600000) <= bpow radix2 (-22) * Rabs (IZR lon / 600000))%R /\
+      (Rabs (Binary.B2R 24 128 (feval elat) - IZR lat / 600000) <= bpow radix2 (-22) * Rabs (IZR lat / 600000))%R.
+Proof. exact coordinates_through_type3_all. Qed.
+Print Assumptions C10_coordinates_through_type3.
+
+
+Theorem C10_coordinates_through_type4 :
+  forall c q vrepeat vmmsi vyear vmonth vday vhour vminute vsecond vaccuracy vepfd xspare vraim vsync vcomm (lon lat : Z) post,
+    let fs := fields4 vrepeat vmmsi vyear vmonth vday vhour vminute vsecond vaccuracy (twos 28 lon) (twos 27 lat) vepfd xspare vraim vsync vcomm in
+    in_range fs ->
+    (- 2 ^ 27 <= lon < 2 ^ 27)%Z -> (- 2 ^ 26 <= lat < 2 ^ 26)%Z ->
+    lon <> 108600000%Z -> lat <> 54600000%Z -> lon <> 0%Z -> lat <> 0%Z ->
+    exists m elon elat,
+      parse_bits c q (enc fs ++ post) = Ok (BaseStationReport m) /\
+      bs_longitude m = Some elon /\ bs_latitude m = Some elat /\
+      (Rabs (Binary.B2R 24 128 (feval elon) - IZR lon / 600000) <= bpow radix2 (-22) * Rabs (IZR lon / 600000))%R /\
+      (Rabs (Binary.B2R 24 128 (feval elat) - IZR lat / 600000) <= bpow radix2 (-22) * Rabs (IZR lat / 600000))%R.
+Proof. exact coordinates_through_type4_all. Qed.
+Print Assumptions C10_coordinates_through_type4.
+
+
+Theorem C10_coordinates_through_type11 :
+  forall c q vrepeat vmmsi vyear vmonth vday vhour vminute vsecond vaccuracy vepfd xspare vraim vsync vcomm (lon lat : Z) post,
+    let fs := fields11 vrepeat vmmsi vyear vmonth vday vhour vminute vsecond vaccuracy (twos 28 lon) (twos 27 lat) vepfd xspare vraim vsync vcomm in
+    in_range fs ->
+    (- 2 ^ 27 <= lon < 2 ^ 27)%Z -> (- 2 ^ 26 <= lat < 2 ^ 26)%Z ->
+    lon <> 108600000%Z -> lat <> 54600000%Z -> lon <> 0%Z -> lat <> 0%Z ->
+    exists m elon elat,
+      parse_bits c q (enc fs ++ post) = Ok (UtcDateResponse m) /\
+      bs_longitude m = Some elon /\ bs_latitude m = Some elat /\
+      (Rabs (Binary.B2R 24 128 (feval elon) - IZR lon / 600000) <= bpow radix2 (-22) * Rabs (IZR lon / 600000))%R /\
+      (Rabs (Binary.B2R 24 128 (feval elat) - IZR lat / 600000) <= bpow radix2 (-22) * Rabs (IZR lat / 600000))%R.
+Proof. exact coordinates_through_type11_all. Qed.
+Print Assumptions C10_coordinates_through_type11.
+
+
+Theorem C10_coordinates_through_type18 :
+  forall c q vrepeat vmmsi xreserved vspeed vaccuracy vcourse vheading vsecond xreserved2 vcs vdisplay vdsc vband vmsg22 vassigned vraim vselector vsync vcomm (lon lat : Z) post,
+    let fs := fields18 vrepeat vmmsi xreserved vspeed vaccuracy (twos 28 lon) (twos 27 lat) vcourse vheading vsecond xreserved2 vcs vdisplay vdsc vband vmsg22 vassigned vraim vselector vsync vcomm in
+    in_range fs ->
+    (- 2 ^ 27 <= lon < 2 ^ 27)%Z -> (- 2 ^ 26 <= lat < 2 ^ 26)%Z ->
+    lon <> 108600000%Z -> lat <> 54600000%Z -> lon <> 0%Z -> lat <> 0%Z ->
+    exists m elon elat,
+      parse_bits c q (enc fs ++ post) = Ok (StandardClassBPositionReport m) /\
+      cb_longitude m = Some elon /\ cb_latitude m = Some elat /\
+      (Rabs (Binary.B2R 24 128 (feval elon) - IZR lon / 600000) <= bpow radix2 (-22) * Rabs (IZR lon / 600000))%R /\
+      (Rabs (Binary.B2R 24 128 (feval elat) - IZR lat / 600000) <= bpow radix2 (-22) * Rabs (IZR lat / 600000))%R.
+Proof. exact coordinates_through_type18_all. Qed.
+Print Assumptions C10_coordinates_through_type18.
+
+
+Theorem C10_coordinates_through_type19 :
+  forall c q vrepeat vmmsi xreserved vspeed vaccuracy vcourse vheading vsecond xreserved2 vname vshiptype vbow vstern vport vstarboard vepfd vraim vdte vassigned xspare (lon lat : Z) post,
+    let fs := fields19 vrepeat vmmsi xreserved vspeed vaccuracy (twos 28 lon) (twos 27 lat) vcourse vheading vsecond xreserved2 vname vshiptype vbow vstern vport vstarboard vepfd vraim vdte vassigned xspare in
+    in_range fs ->
+    (- 2 ^ 27 <= lon < 2 ^ 27)%Z -> (- 2 ^ 26 <= lat < 2 ^ 26)%Z ->
+    lon <> 108600000%Z -> lat <> 54600000%Z -> lon <> 0%Z -> lat <> 0%Z ->
+    exists m elon elat,
+      parse_bits c q (enc fs ++ post) = Ok (ExtendedClassBPositionReport m) /\
+      eb_longitude m = Some elon /\ eb_latitude m = Some elat /\
+      (Rabs (Binary.B2R 24 128 (feval elon) - IZR lon / 600000) <= bpow radix2 (-22) * Rabs (IZR lon / 600000))%R /\
+      (Rabs (Binary.B2R 24 128 (feval elat) - IZR lat / 600000) <= bpow radix2 (-22) * Rabs (IZR lat / 600000))%R.
+Proof. exact coordinates_through_type19_all. Qed.
+Print Assumptions C10_coordinates_through_type19.
+
+
+Theorem C10_coordinates_through_type21 :
+  forall c q vrepeat vmmsi vaidtype vname vaccuracy vbow vstern vport vstarboard vepfd vsecond voffposition vregional vraim vvirtual vassigned xspare (lon lat : Z) post,
+    let fs := fields21 vrepeat vmmsi vaidtype vname vaccuracy (twos 28 lon) (twos 27 lat) vbow vstern vport vstarboard vepfd vsecond voffposition vregional vraim vvirtual vassigned xspare in
+    in_range fs ->
+    (- 2 ^ 27 <= lon < 2 ^ 27)%Z -> (- 2 ^ 26 <= lat < 2 ^ 26)%Z ->
+    lon <> 108600000%Z -> lat <> 54600000%Z -> lon <> 0%Z -> lat <> 0%Z ->
+    exists m elon elat,
+      parse_bits c q (enc fs ++ post) = Ok (AidToNavigationReport m) /\
+      an_longitude m = Some elon /\ an_latitude m = Some elat /\
+      (Rabs (Binary.B2R 24 128 (feval elon) - IZR lon / 600000) <= bpow radix2 (-22) * Rabs (IZR lon / 600000))%R /\
+      (Rabs (Binary.B2R 24 128 (feval elat) - IZR lat / 600000) <= bpow radix2 (-22) * Rabs (IZR lat / 600000))%R.
+Proof. exact coordinates_through_type21_all. Qed.
+Print Assumptions C10_coordinates_through_type21.
+(* END generated coordinate theorems *)
 
 (* non-vacuity: -73421920 / 600000 evaluates to the bits the implementation prints for the README sentence *)
 Example C10_nonvacuous : fbits (FDiv (FOfInt (-73421920)) 600000) = 3270819167%Z.
